@@ -67,11 +67,60 @@ def _run_spec(spec):
                         fid = _mod.attribute(rec["case"], message, bucket)
                     col.fail({"__regress__": os.path.relpath(p, HERE), "case": rec["case"]}, message, bucket, finding=fid)
             return col
+        if spec.get("cg"):
+            return _run_cg(spec)
         return _mod.run_shard(spec)
     except BaseException:  # noqa
         col = Collector()
         col.error("shard %r crashed:\n%s" % (spec.get("kind"), traceback.format_exc()))
         return col
+
+
+def _run_cg(spec):
+    """Coverage-guided variant of an ordinary Hypothesis shard (spec["cg"] = number of executions): fuzz/cg_shard.py in a
+    subprocess (atheris instruments the library at import time and libFuzzer's driver never returns)."""
+    import pickle
+    import re
+    import subprocess
+
+    from vf import env
+    from vf.core import Collector
+
+    col = Collector()
+    target = os.path.join(HERE, "fuzz", "cg_shard.py")
+    deps = os.path.join(HERE, ".deps")
+    probe = subprocess.run([sys.executable, "-c", "import sys; sys.path.insert(0, %r); import atheris" % deps], capture_output=True, text=True)
+    if probe.returncode != 0 or not os.path.exists(target):
+        col.notes.append("coverage-guided stage skipped: atheris does not import (%s)" % ((probe.stderr.strip().splitlines() or ["?"])[-1][:200]))
+        return col
+    work = os.path.join(env.scratch_base(), "cg_%d_%s" % (os.getpid(), spec.get("seed")))
+    os.makedirs(work, exist_ok=True)
+    try:
+        with open(os.path.join(work, "spec.json"), "w") as f:
+            json.dump(spec, f)
+        out = os.path.join(work, "result.pickle")
+        e = dict(os.environ, PYTHONHASHSEED="0", VF_SCRATCH=env.scratch_base())
+        with open(os.path.join(work, "stderr"), "w") as errf:
+            try:
+                r = subprocess.run([sys.executable, target, _mod.__name__, os.path.join(work, "spec.json"), out], stdout=subprocess.DEVNULL, stderr=errf, env=e, cwd=HERE, timeout=spec.get("cg_timeout", 5400))
+                rc = r.returncode
+            except subprocess.TimeoutExpired:
+                rc = "timeout"
+        with open(os.path.join(work, "stderr"), errors="replace") as errf:
+            err = errf.read()
+        if not os.path.exists(out):
+            col.error("coverage-guided shard %r produced no result (rc %s): ...%s" % (spec.get("kind"), rc, err[-1500:]))
+            return col
+        with open(out, "rb") as f:
+            col = pickle.load(f)
+        m = re.findall(r"cov: (\d+) ft: (\d+)", err)
+        if m:
+            col.count("cg_shards")
+            col.count("cg_library_edges_covered_sum_over_shards", int(m[-1][0]))
+            col.count("cg_libfuzzer_features_sum_over_shards", int(m[-1][1]))
+        return col
+    finally:
+        shutil.rmtree(work, ignore_errors=True)
 
 
 def main(argv=None):
@@ -129,6 +178,17 @@ def main(argv=None):
 
         # ---------------- plan -------------------
         specs = list(mod.plan(args.tier, seed, args.scale))
+        # coverage-guided stage: mod.CG = {tier: {spec kind: (shards, executions per shard)}} clones ordinary Hypothesis
+        # shards of that kind; they run under atheris (see _run_cg / fuzz/cg_shard.py). VF_CG=0 switches the stage off.
+        if os.environ.get("VF_CG", "1") != "0":
+            from vf.core import derive_seed
+
+            for kind, (nsh, execs) in sorted(getattr(mod, "CG", {}).get(args.tier, {}).items()):
+                bases = [sp for sp in specs if sp.get("kind") == kind and not sp.get("cg")]
+                for sh in range(nsh if bases else 0):
+                    sp = dict(bases[sh % len(bases)])
+                    sp.update(seed=derive_seed(seed, "cg", kind, sh), cg=max(50, int(execs * args.scale)))
+                    specs.insert(0, sp)
         reg = sorted(glob.glob(os.path.join(HERE, "regress", prop, "*.json")))
         if reg:
             specs.insert(0, {"kind": "__regress__", "paths": reg})
